@@ -129,13 +129,51 @@ pub fn run_cli_full(dir: &Path, args: &[String], hash_seed: u64, sched: Option<S
       let _ = std::io::stdout().flush();
       let cap_out = if stdout_closed { FdCapture::start_closed_pipe(1, &out_path) } else { FdCapture::start(1, &out_path) };
       let cap_err = FdCapture::start(2, &err_path);
+      // fd 0 is a pipe fed by a producer that is slower than the reader: the text arrives in 1-3
+      // pieces, each written only after the one before was consumed, so every read returns at
+      // most one piece (a short read in the middle of the input, as with `cmd | sg scan --stdin`).
+      // Where the pieces end is a function of the text: the sequence of read results is fixed.
+      let _ = &in_path;
+      let feeder_stop = Arc::new(std::sync::atomic::AtomicBool::new(false));
+      let mut feeder: Option<std::thread::JoinHandle<()>> = None;
       let saved_stdin = stdin.as_ref().map(|bytes| {
-        use std::os::fd::AsRawFd;
-        let p = in_path.clone();
-        std::fs::write(&p, bytes).expect("stdin file");
-        let f = std::fs::File::open(&p).expect("stdin file");
+        let mut fds = [0i32; 2];
+        assert_eq!(unsafe { libc::pipe(fds.as_mut_ptr()) }, 0, "pipe for stdin");
+        let (rd, wr) = (fds[0], fds[1]);
         let saved = unsafe { libc::dup(0) };
-        unsafe { libc::dup2(f.as_raw_fd(), 0) };
+        unsafe {
+          libc::dup2(rd, 0);
+          libc::close(rd);
+        }
+        let bytes = bytes.clone();
+        let stop = feeder_stop.clone();
+        feeder = Some(std::thread::spawn(move || {
+          let n = 1 + (crate::rng::fnv1a(&bytes) % 3) as usize;
+          let cuts: Vec<usize> = (0..=n).map(|i| bytes.len() * i / n).collect();
+          'pieces: for w in cuts.windows(2) {
+            let mut piece = &bytes[w[0]..w[1]];
+            while !piece.is_empty() {
+              let k = unsafe { libc::write(wr, piece.as_ptr() as *const libc::c_void, piece.len()) };
+              if k <= 0 {
+                break 'pieces; // reader gone
+              }
+              piece = &piece[k as usize..];
+            }
+            // wait until the reader has taken it
+            loop {
+              let mut pending: libc::c_int = 0;
+              unsafe { libc::ioctl(wr, libc::FIONREAD, &mut pending) };
+              if pending == 0 {
+                break;
+              }
+              if stop.load(std::sync::atomic::Ordering::SeqCst) {
+                break 'pieces;
+              }
+              std::thread::sleep(std::time::Duration::from_micros(100));
+            }
+          }
+          unsafe { libc::close(wr) };
+        }));
         saved
       });
       if let Some(s) = &sched2 {
@@ -152,10 +190,14 @@ pub fn run_cli_full(dir: &Path, args: &[String], hash_seed: u64, sched: Option<S
       let stdout = cap_out.finish();
       let stderr = cap_err.finish();
       if let Some(saved) = saved_stdin {
+        feeder_stop.store(true, std::sync::atomic::Ordering::SeqCst);
         unsafe {
           libc::dup2(saved, 0);
           libc::close(saved);
         }
+      }
+      if let Some(f) = feeder {
+        let _ = f.join();
       }
       let (result, consumer_panic) = match r {
         Ok(Ok(())) => (Ok(()), None),
